@@ -73,7 +73,22 @@ let c_log (e : coq_N Log.logentry) : string =
   | Log.LMcTimerCancelled (p, t) -> Printf.sprintf "McTimerCancelled %s %s" (sn p) (sn t)
   | Log.LMcNodeCrashed n -> "McNodeCrashed " ^ sn n
 
-let c_trace (l : coq_N Log.logentry list) : string = cat ";" (LL.map c_log l)
+(* the one place where the code's order is a heap's internal iteration order (the block of MessageDropped entries
+   logged by one System::crash_node call) is canonicalised by sorting that block *)
+let canon_entries (l : string list) : string list =
+  let is_pref p s = SS.length s >= SS.length p && SS.sub s 0 (SS.length p) = p in
+  let rec go acc l =
+    match l with
+    | [] -> LL.rev acc
+    | e :: r when is_pref "NodeCrashed " e ->
+      let rec split blk r = match r with
+        | x :: r' when is_pref "MessageDropped " x -> split (x :: blk) r'
+        | _ -> (blk, r) in
+      let (blk, rest) = split [] r in
+      go (LL.rev_append (LL.sort compare blk) (e :: acc)) rest
+    | e :: r -> go (e :: acc) r in
+  go [] l
+let c_trace (l : coq_N Log.logentry list) : string = cat ";" (canon_entries (LL.map c_log l))
 
 let c_hentry (h : coq_N Script.hentry) : string =
   Printf.sprintf "(%s|%s|%s)" (c_ids h.Script.he_key)
